@@ -252,7 +252,8 @@ def main(prop, tier, replay_path=None):
     if mismatches:
         print("HARNESS ERROR: %d of %d re-executed runs did not reproduce their event log"
               % (mismatches, redone))
-        return HARNESS_EXIT
+        # a violation that was found and written as a replay file stands on its own
+        return exit_code or HARNESS_EXIT
     if harness_errors:
         run_seed, doc = harness_errors[0]
         print("HARNESS ERROR: %d runs failed inside the harness; first: run_seed=%s status=%s %s"
